@@ -87,7 +87,7 @@ func (o *UntypedRequestBinder) Bind(request *http.Request, routeParams RoutePara
 		}
 
 		if binder.validator != nil {
-			rr := binder.validator.Validate(target.Interface())
+			rr := binder.validator.Validate(validationValue(target))
 			if rr != nil && rr.HasErrors() {
 				result = append(result, rr.AsError())
 			}
@@ -114,4 +114,22 @@ func (o *UntypedRequestBinder) SetLogger(lg logger.Logger) {
 
 func (o *UntypedRequestBinder) setDebugLogf(fn func(string, ...any)) {
 	o.debugLogf = fn
+}
+
+// validationValue is the bound value as the parameter validators expect it: they take the Go type
+// string for `type: string`, so values of the named string types that back registered string formats
+// (strfmt.Email, strfmt.UUID, strfmt.URI, ...) are handed over as plain strings, also inside slices.
+func validationValue(target reflect.Value) interface{} {
+	stringType := reflect.TypeOf("")
+	switch {
+	case target.Kind() == reflect.String && target.Type() != stringType:
+		return target.String()
+	case target.Kind() == reflect.Slice && target.Type().Elem().Kind() == reflect.String && target.Type().Elem() != stringType:
+		values := make([]string, target.Len())
+		for i := range values {
+			values[i] = target.Index(i).String()
+		}
+		return values
+	}
+	return target.Interface()
 }
